@@ -72,13 +72,226 @@ fn build(t: &Value, alt: &mut usize) -> Tree {
             }
         }
         "repeatx" => RepeatX { shape: build(&t[1], alt), radius: f(&t[2]), offset: f(&t[3]) }.into(),
-        "revolvey" => RevolveY { shape: build(&t[1], alt), offset: 0.0 }.into(),
+        "revolvey" => RevolveY { shape: build(&t[1], alt), offset: f(&t[2]) }.into(),
         "extrudez" => ExtrudeZ { shape: build(&t[1], alt), lower: f(&t[2]), upper: f(&t[3]) }.into(),
         "union" => Union { input: t[1].as_array().unwrap().iter().map(|s| build(s, alt)).collect() }.into(),
         "inter" => Intersection { input: t[1].as_array().unwrap().iter().map(|s| build(s, alt)).collect() }.into(),
         "diff" => Difference { shape: build(&t[1], alt), cutout: build(&t[2], alt) }.into(),
         "inv" => Inverse { shape: build(&t[1], alt) }.into(),
         other => panic!("unknown shape {other}"),
+    }
+}
+
+// ---- transforms and planes in general position (judged): T(s)(p) = s(T^-1 p) ---------------------------------
+fn eval_tree(tree: &Tree, pts: &[[f32; 3]]) -> Vec<f32> {
+    let mut ctx = Context::new();
+    let node = ctx.import(tree);
+    let shape = Shape::<VmFunction>::new(&ctx, node).unwrap();
+    let tape = shape.ez_float_slice_tape();
+    let mut e = Shape::<VmFunction>::new_float_slice_eval();
+    let xs: Vec<f32> = pts.iter().map(|p| p[0]).collect();
+    let ys: Vec<f32> = pts.iter().map(|p| p[1]).collect();
+    let zs: Vec<f32> = pts.iter().map(|p| p[2]).collect();
+    e.eval(&tape, &xs, &ys, &zs).unwrap().to_vec()
+}
+
+fn unit(v: [f64; 3]) -> [f64; 3] {
+    let n = (v[0] * v[0] + v[1] * v[1] + v[2] * v[2]).sqrt();
+    [v[0] / n, v[1] / n, v[2] / n]
+}
+fn dot(a: [f64; 3], b: [f64; 3]) -> f64 {
+    a[0] * b[0] + a[1] * b[1] + a[2] * b[2]
+}
+/// Rodrigues rotation of v about the unit axis a by t radians (right-handed)
+fn rot(a: [f64; 3], t: f64, v: [f64; 3]) -> [f64; 3] {
+    let (c, s) = (t.cos(), t.sin());
+    let cr = [a[1] * v[2] - a[2] * v[1], a[2] * v[0] - a[0] * v[2], a[0] * v[1] - a[1] * v[0]];
+    let d = dot(a, v);
+    [0, 1, 2].map(|i| v[i] * c + cr[i] * s + a[i] * d * (1.0 - c))
+}
+
+/// Random direction: general, or within a few milliradians of a coordinate axis (which must not be snapped to it)
+fn random_axis(rng: &mut Rng, k: usize) -> [f32; 3] {
+    match k % 4 {
+        0 | 1 => [rng.range(-1.0, 1.0), rng.range(-1.0, 1.0), rng.range(0.2, 1.0) * if rng.below(2) == 0 { 1.0 } else { -1.0 }],
+        _ => {
+            // a tilt of 0.2 .. 4 milliradians away from a coordinate axis
+            let t = rng.range(0.0002, 0.004);
+            let a = rng.range(0.0, 6.28);
+            let main = rng.below(3);
+            let len = rng.range(0.5, 2.0) * if rng.below(2) == 0 { 1.0 } else { -1.0 };
+            let mut v = [0.0f32; 3];
+            v[main] = len;
+            v[(main + 1) % 3] = len.abs() * t * a.cos();
+            v[(main + 2) % 3] = len.abs() * t * a.sin();
+            v
+        }
+    }
+}
+
+fn law_cases(w: &mut impl Write, id: &mut usize, rng: &mut Rng, count: usize) {
+    for k in 0..count {
+        // the solid s: a sphere or a box in general position (hundreds of units large in the `far` cases, where a
+        // direction that is off by a milliradian moves the surface by a whole unit)
+        let far = k % 5 == 4;
+        let u = if far { 250.0 } else { 1.0 };
+        // `near` holds points at a distance of 0.05 % .. 1 % of the solid's size from its surface, on either side
+        let mut near: Vec<[f64; 3]> = vec![];
+        let (stree, sdesc): (Tree, String) = if k % 2 == 0 {
+            let c = [rng.range(-2.0, 2.0) * u, rng.range(-2.0, 2.0) * u, rng.range(-2.0, 2.0) * u];
+            let r = rng.range(1.5, 3.0) * u;
+            for i in 0..120 {
+                let d = unit([rng.range(-1.0, 1.0) as f64, rng.range(-1.0, 1.0) as f64, rng.range(-1.0, 1.0) as f64 + 1.0e-3]);
+                let rr = r as f64 * (1.0 + if i % 2 == 0 { 1.0 } else { -1.0 } * rng.range(0.0005, 0.01) as f64);
+                near.push([c[0] as f64 + rr * d[0], c[1] as f64 + rr * d[1], c[2] as f64 + rr * d[2]]);
+            }
+            (Sphere { center: Vec3::new(c[0], c[1], c[2]), radius: r }.into(), format!("sphere({c:?},{r})"))
+        } else {
+            let lo = [rng.range(-3.0, 0.0) * u, rng.range(-3.0, 0.0) * u, rng.range(-3.0, 0.0) * u];
+            let hi = [lo[0] + rng.range(1.5, 4.0) * u, lo[1] + rng.range(1.5, 4.0) * u, lo[2] + rng.range(1.5, 4.0) * u];
+            for i in 0..120 {
+                // a point of one face, pushed in or out
+                let ax = i % 3;
+                let mut q = [0.0f64; 3];
+                for a in 0..3 { q[a] = rng.range(lo[a] + 0.1 * (hi[a] - lo[a]), hi[a] - 0.1 * (hi[a] - lo[a])) as f64; }
+                let size = (hi[ax] - lo[ax]) as f64;
+                let dlt = size * rng.range(0.0005, 0.01) as f64 * if i % 2 == 0 { 1.0 } else { -1.0 };
+                q[ax] = if (i / 3) % 2 == 0 { hi[ax] as f64 + dlt } else { lo[ax] as f64 - dlt };
+                near.push(q);
+            }
+            (fidget_shapes::Box { lower: Vec3::new(lo[0], lo[1], lo[2]), upper: Vec3::new(hi[0], hi[1], hi[2]) }.into(), format!("box({lo:?},{hi:?})"))
+        };
+        let span = 6.0 * u;
+        let mut cands: Vec<[f32; 3]> = (0..400).map(|_| [rng.range(-span, span), rng.range(-span, span), rng.range(-span, span)]).collect();
+        let kind = ["move", "scale", "scaleu", "reflect", "reflect-named", "rotate", "rotate-named", "plane", "repeatx"][k % 9];
+        // the transformed tree and the inverse action on a point (f64)
+        let inv: Box<dyn Fn([f64; 3]) -> Option<[f64; 3]>>;
+        // the documented action itself (where a point has one image): used to place sample points next to the surface
+        let mut fwd: Option<Box<dyn Fn([f64; 3]) -> [f64; 3]>> = None;
+        let ttree: Tree;
+        let mut plane_only: Option<([f64; 3], f64)> = None;
+        let desc;
+        match kind {
+            "move" => {
+                let o = [rng.range(-5.0, 5.0), rng.range(-5.0, 5.0), rng.range(-5.0, 5.0)];
+                ttree = Move { shape: stree.clone(), offset: Vec3::new(o[0], o[1], o[2]) }.into();
+                inv = Box::new(move |p| Some([p[0] - o[0] as f64, p[1] - o[1] as f64, p[2] - o[2] as f64]));
+                fwd = Some(Box::new(move |q| [q[0] + o[0] as f64, q[1] + o[1] as f64, q[2] + o[2] as f64]));
+                desc = format!("move {o:?}");
+            }
+            "scale" => {
+                let sc = [0, 1, 2].map(|_| rng.range(0.3, 3.0) * if rng.below(3) == 0 { -1.0 } else { 1.0 });
+                ttree = Scale { shape: stree.clone(), scale: Vec3::new(sc[0], sc[1], sc[2]) }.into();
+                inv = Box::new(move |p| Some([p[0] / sc[0] as f64, p[1] / sc[1] as f64, p[2] / sc[2] as f64]));
+                fwd = Some(Box::new(move |q| [q[0] * sc[0] as f64, q[1] * sc[1] as f64, q[2] * sc[2] as f64]));
+                desc = format!("scale {sc:?}");
+            }
+            "scaleu" => {
+                let sc = rng.range(0.3, 3.0) * if rng.below(3) == 0 { -1.0 } else { 1.0 };
+                ttree = ScaleUniform { shape: stree.clone(), scale: sc }.into();
+                inv = Box::new(move |p| Some([p[0] / sc as f64, p[1] / sc as f64, p[2] / sc as f64]));
+                fwd = Some(Box::new(move |q| [q[0] * sc as f64, q[1] * sc as f64, q[2] * sc as f64]));
+                desc = format!("scaleu {sc}");
+            }
+            "reflect" | "plane" => {
+                let a = random_axis(rng, k / 9);
+                let off = rng.range(-2.0, 2.0);
+                let axis = Axis::try_from(Vec3::new(a[0], a[1], a[2])).unwrap();
+                let n = unit([a[0] as f64, a[1] as f64, a[2] as f64]);
+                if kind == "plane" {
+                    ttree = Plane { axis, offset: off }.into();
+                    plane_only = Some((n, off as f64));
+                    inv = Box::new(|p| Some(p));
+                } else {
+                    ttree = Reflect { shape: stree.clone(), plane: Plane { axis, offset: off } }.into();
+                    inv = Box::new(move |p| { let d = dot(n, p) - off as f64; Some([p[0] - 2.0 * d * n[0], p[1] - 2.0 * d * n[1], p[2] - 2.0 * d * n[2]]) });
+                    fwd = Some(Box::new(move |p| { let d = dot(n, p) - off as f64; [p[0] - 2.0 * d * n[0], p[1] - 2.0 * d * n[1], p[2] - 2.0 * d * n[2]] }));
+                }
+                desc = format!("{kind} axis {a:?} offset {off}");
+            }
+            "reflect-named" => {
+                let off = rng.range(-2.0, 2.0);
+                let j = rng.below(3);
+                ttree = match j { 0 => ReflectX { shape: stree.clone(), offset: off }.into(), 1 => ReflectY { shape: stree.clone(), offset: off }.into(), _ => ReflectZ { shape: stree.clone(), offset: off }.into() };
+                inv = Box::new(move |mut p| { p[j] = 2.0 * off as f64 - p[j]; Some(p) });
+                fwd = Some(Box::new(move |mut p| { p[j] = 2.0 * off as f64 - p[j]; p }));
+                desc = format!("reflect-{j} offset {off}");
+            }
+            "rotate" | "rotate-named" => {
+                let named = kind == "rotate-named";
+                let j = rng.below(3);
+                let a = if named { let mut v = [0.0f32; 3]; v[j] = 1.0; v } else { random_axis(rng, k / 9) };
+                let angle = rng.range(-400.0, 400.0);
+                let c = [rng.range(-2.0, 2.0), rng.range(-2.0, 2.0), rng.range(-2.0, 2.0)];
+                let center = Vec3::new(c[0], c[1], c[2]);
+                ttree = if named {
+                    match j { 0 => RotateX { shape: stree.clone(), angle, center }.into(), 1 => RotateY { shape: stree.clone(), angle, center }.into(), _ => RotateZ { shape: stree.clone(), angle, center }.into() }
+                } else {
+                    Rotate { shape: stree.clone(), axis: Axis::try_from(Vec3::new(a[0], a[1], a[2])).unwrap(), angle, center }.into()
+                };
+                let n = unit([a[0] as f64, a[1] as f64, a[2] as f64]);
+                let t = -(angle as f64).to_radians();
+                inv = Box::new(move |p| { let v = rot(n, t, [p[0] - c[0] as f64, p[1] - c[1] as f64, p[2] - c[2] as f64]); Some([v[0] + c[0] as f64, v[1] + c[1] as f64, v[2] + c[2] as f64]) });
+                fwd = Some(Box::new(move |p| { let v = rot(n, -t, [p[0] - c[0] as f64, p[1] - c[1] as f64, p[2] - c[2] as f64]); [v[0] + c[0] as f64, v[1] + c[1] as f64, v[2] + c[2] as f64] }));
+                desc = format!("{kind} axis {a:?} angle {angle} center {c:?}");
+            }
+            _ => {
+                let (r, o) = (rng.range(1.0, 4.0), rng.range(-2.0, 2.0));
+                ttree = RepeatX { shape: stree.clone(), radius: r, offset: o }.into();
+                inv = Box::new(move |p| {
+                    let (r, o) = (r as f64, o as f64);
+                    let m = (p[0] - o + r).rem_euclid(2.0 * r);
+                    // undecided within rounding distance of the seam of the repetition
+                    if m < 1.0e-3 * (1.0 + p[0].abs()) || 2.0 * r - m < 1.0e-3 * (1.0 + p[0].abs()) { None } else { Some([m - r + o, p[1], p[2]]) }
+                });
+                desc = format!("repeatx radius {r} offset {o}");
+            }
+        }
+        // candidates next to the expected surface come first
+        let mut first: Vec<[f32; 3]> = vec![];
+        if let Some(f) = &fwd {
+            first = near.iter().map(|q| { let p = f(*q); [p[0] as f32, p[1] as f32, p[2] as f32] }).collect();
+        } else if let Some((n, off)) = plane_only {
+            let e1 = unit(if n[0].abs() < 0.9 { [0.0, -n[2], n[1]] } else { [-n[2], 0.0, n[0]] });
+            let e2 = [n[1] * e1[2] - n[2] * e1[1], n[2] * e1[0] - n[0] * e1[2], n[0] * e1[1] - n[1] * e1[0]];
+            for i in 0..120 {
+                let (a, b) = (rng.range(-span, span) as f64, rng.range(-span, span) as f64);
+                let d = off + (u as f64) * rng.range(0.002, 0.05) as f64 * if i % 2 == 0 { 1.0 } else { -1.0 };
+                first.push([0, 1, 2].map(|c| (a * e1[c] + b * e2[c] + d * n[c]) as f32));
+            }
+        }
+        first.extend(cands.drain(..));
+        let cands = first;
+        // keep about as many points inside the transformed solid as outside it
+        let pts: Vec<[f32; 3]> = {
+            let g = eval_tree(&ttree, &cands);
+            let mut inside: Vec<[f32; 3]> = cands.iter().zip(&g).filter(|(_, v)| **v < 0.0).map(|(p, _)| *p).take(20).collect();
+            let need = 40 - inside.len();
+            inside.extend(cands.iter().zip(&g).filter(|(_, v)| !(**v < 0.0)).map(|(p, _)| *p).take(need));
+            inside
+        };
+        let got = eval_tree(&ttree, &pts);
+        let qs: Vec<Option<[f64; 3]>> = pts.iter().map(|p| inv([p[0] as f64, p[1] as f64, p[2] as f64])).collect();
+        let qf: Vec<[f32; 3]> = qs.iter().map(|q| q.map(|v| [v[0] as f32, v[1] as f32, v[2] as f32]).unwrap_or([0.0; 3])).collect();
+        let sref = eval_tree(&stree, &qf);
+        let sign = |v: f32| -> i64 { if v.is_nan() { 5 } else if v < 0.0 { -1 } else if v > 0.0 { 1 } else { 0 } };
+        let mut want = vec![];
+        for (i, p) in pts.iter().enumerate() {
+            let scale = 1.0 + p.iter().fold(0.0f32, |m, v| m.max(v.abs()));
+            let band = std::env::var("VERIF_LAW_BAND").ok().and_then(|v| v.parse::<f32>().ok()).unwrap_or(3.0e-5) * scale + 1.0e-4;
+            let w = match (plane_only, qs[i]) {
+                (Some((n, off)), _) => { let d = dot(n, [p[0] as f64, p[1] as f64, p[2] as f64]) - off; if d.abs() < band as f64 { 0 } else if d < 0.0 { -1 } else { 1 } }
+                (None, None) => 0,
+                (None, Some(_)) => if sref[i].abs() < band || got[i].abs() < band * 0.01 { 0 } else { sign(sref[i]) },
+            };
+            want.push(w);
+        }
+        let j = json!({"ev": "law", "id": *id, "kind": kind, "term": ["law", kind], "desc": format!("{desc} of {sdesc}"), "far": far,
+            "pts": pts.iter().map(|p| p.iter().map(|v| vharness::keys::bits(*v)).collect::<Vec<_>>()).collect::<Vec<_>>(),
+            "sign": got.iter().map(|v| sign(*v)).collect::<Vec<_>>(), "want": want, "panic": "",
+            "margin": pts.iter().enumerate().map(|(i, p)| { let sc = 1.0 + p.iter().fold(0.0f32, |m, v| m.max(v.abs())); (sref[i].abs().min(1.0e6) / sc * 1.0e9) as i64 }).collect::<Vec<_>>()});
+        writeln!(w, "{j}").unwrap();
+        *id += 1;
     }
 }
 
@@ -123,6 +336,7 @@ fn main() {
         writeln!(w, "{j}").unwrap();
         id += 1;
     }
+    law_cases(&mut w, &mut id, &mut rng, if quick { 450 } else { 4500 });
     w.flush().unwrap();
     eprintln!("c16: {id} shapes");
 }
